@@ -18,7 +18,9 @@ use std::sync::Arc;
 use std::time::Duration;
 
 use futures_util::{FutureExt, StreamExt};
-use hickory_net::runtime::{Time, TokioRuntimeProvider};
+use hickory_net::runtime::iocompat::AsyncIoTokioAsStd;
+use hickory_net::runtime::{DnsUdpSocket, RuntimeProvider, Spawn, Time, TokioRuntimeProvider};
+use hickory_net::udp::UdpClientStream;
 use hickory_net::xfer::{BufDnsStreamHandle, DnsClientStream, DnsRequestSender, DnsResponseStream, Protocol, StreamReceiver};
 use hickory_net::{DnsMultiplexer, NetError};
 use hickory_proto::op::{DnsRequest, DnsRequestOptions, DnsResponse, Edns, Message, MessageType, OpCode, Query, SerialMessage};
@@ -27,6 +29,7 @@ use hickory_proto::rr::rdata::{A, NS, SOA, TXT};
 use hickory_proto::rr::{DNSClass, LowerName, Name, RData, Record, RecordType, TSigResponseContext, TSigVerifier, TSigner};
 use hickory_proto::serialize::binary::{BinDecodable, BinDecoder};
 use hickory_server::server::{Request, RequestHandler, ResponseHandle};
+use hickory_server::store::file::FileZoneHandler;
 use hickory_server::store::in_memory::InMemoryZoneHandler;
 use hickory_server::store::sqlite::{Journal, SqliteZoneHandler};
 use hickory_server::zone_handler::{AxfrPolicy, Catalog, ZoneHandler, ZoneType};
@@ -602,14 +605,19 @@ fn origin() -> Name {
     Name::from_ascii("example.com.").unwrap()
 }
 
-fn build_zone(policy: AxfrPolicy, allow_update: bool, signers: Vec<TSigner>, journal: Option<&std::path::Path>, rt: &tokio::runtime::Runtime) -> Arc<SqliteZoneHandler> {
+fn base_zone(policy: AxfrPolicy) -> InMemoryZoneHandler<TokioRuntimeProvider> {
     let o = origin();
-    let mut z = InMemoryZoneHandler::<TokioRuntimeProvider>::empty(o.clone(), ZoneType::Primary, AxfrPolicy::AllowAll, None);
+    let mut z = InMemoryZoneHandler::<TokioRuntimeProvider>::empty(o.clone(), ZoneType::Primary, policy, None);
     let soa = SOA::new(Name::from_ascii("ns.example.com.").unwrap(), Name::from_ascii("admin.example.com.").unwrap(), 20260101, 7200, 3600, 360000, 60);
     z.upsert_mut(Record::from_rdata(o.clone(), 3600, RData::SOA(soa)), 0);
     z.upsert_mut(Record::from_rdata(o.clone(), 3600, RData::NS(NS(Name::from_ascii("ns.example.com.").unwrap()))), 0);
     z.upsert_mut(Record::from_rdata(Name::from_ascii("ns.example.com.").unwrap(), 3600, RData::A(A::new(192, 0, 2, 1))), 0);
     z.upsert_mut(Record::from_rdata(Name::from_ascii("www.example.com.").unwrap(), 300, RData::A(A::new(192, 0, 2, 80))), 0);
+    z
+}
+
+fn build_zone(policy: AxfrPolicy, allow_update: bool, signers: Vec<TSigner>, journal: Option<&std::path::Path>, rt: &tokio::runtime::Runtime) -> Arc<SqliteZoneHandler> {
+    let z = base_zone(AxfrPolicy::AllowAll);
     let mut h = SqliteZoneHandler::new(z, policy, allow_update, false);
     h.set_tsig_signers(signers);
     if let Some(p) = journal {
@@ -621,7 +629,7 @@ fn build_zone(policy: AxfrPolicy, allow_update: bool, signers: Vec<TSigner>, jou
     Arc::new(h)
 }
 
-fn zone_dump(h: &SqliteZoneHandler, rt: &tokio::runtime::Runtime) -> (String, u32) {
+fn zone_dump(h: &InMemoryZoneHandler<TokioRuntimeProvider>, rt: &tokio::runtime::Runtime) -> (String, u32) {
     rt.block_on(async {
         let recs = h.records().await;
         let mut s = String::new();
@@ -765,7 +773,11 @@ fn exec_srv(t: &[&str], cx: &Ctx) -> Option<CaseOut> {
     let specs: Vec<SignerSpec> = if *sgs == "-" { vec![] } else { sgs.split(',').map(SignerSpec::parse).collect::<Option<_>>()? };
     let now: u64 = now.parse().ok()?;
     let buf = unhex(buf)?;
-    let jr = *jr == "1";
+    let store = *jr;
+    if !["0", "1", "m", "f"].contains(&store) {
+        return None;
+    }
+    let jr = store == "1";
     let ok = rdok(&buf);
     let sg_toks: Vec<String> = specs.iter().map(|s| s.tok(macok_for(s, &buf, None, true))).collect();
     let line = format!(
@@ -777,10 +789,10 @@ fn exec_srv(t: &[&str], cx: &Ctx) -> Option<CaseOut> {
         now,
         hex(&buf),
         b(ok),
-        b(jr)
+        store
     );
     let mut fails: Vec<(String, &'static str)> = vec![];
-    let mut stats = vec![];
+    let mut stats = vec![format!("srv.store.{store}")];
     let src: SocketAddr = "127.0.0.1:5300".parse().unwrap();
 
     // the property's own reading of the request
@@ -821,18 +833,35 @@ fn exec_srv(t: &[&str], cx: &Ctx) -> Option<CaseOut> {
     stats.push(format!("srv.kind.{kind}"));
 
     let signers: Vec<TSigner> = specs.iter().filter_map(|s| s.signer()).collect();
-    let handler = build_zone(policy, au, signers, if jr { Some(&cx.journal_path) } else { None }, &cx.rt);
+    // the store: sqlite (policy and TSIG in the SqliteZoneHandler), or in-memory / file (policy in
+    // the InMemoryZoneHandler, no TSIG processing, no updates)
     let mut catalog = Catalog::new();
-    catalog.upsert(LowerName::new(&origin()), vec![handler.clone() as Arc<dyn ZoneHandler>]);
-    let before = zone_dump(&handler, &cx.rt);
-    let rows_before = journal_rows(&handler, &cx.rt);
+    let sqlite = if store == "0" || store == "1" { Some(build_zone(policy, au, signers, if jr { Some(&cx.journal_path) } else { None }, &cx.rt)) } else { None };
+    let mem: Option<Arc<InMemoryZoneHandler<TokioRuntimeProvider>>> = if store == "m" { Some(Arc::new(base_zone(policy))) } else { None };
+    let file: Option<Arc<FileZoneHandler>> = if store == "f" { Some(Arc::new(cx.rt.block_on(FileZoneHandler::new(base_zone(policy))))) } else { None };
+    let as_handler: Arc<dyn ZoneHandler> = match (&sqlite, &mem, &file) {
+        (Some(h), _, _) => h.clone(),
+        (_, Some(h), _) => h.clone(),
+        (_, _, Some(h)) => h.clone(),
+        _ => return None,
+    };
+    catalog.upsert(LowerName::new(&origin()), vec![as_handler]);
+    let dump = |rt: &tokio::runtime::Runtime| match (&sqlite, &mem, &file) {
+        (Some(h), _, _) => zone_dump(h, rt),
+        (_, Some(h), _) => zone_dump(h, rt),
+        (_, _, Some(h)) => zone_dump(h, rt),
+        _ => (String::new(), 0),
+    };
+    let rows = |rt: &tokio::runtime::Runtime| sqlite.as_ref().map(|h| journal_rows(h, rt)).unwrap_or(0);
+    let before = dump(&cx.rt);
+    let rows_before = rows(&cx.rt);
 
     NOW.store(now, Ordering::SeqCst);
     let (stream, mut receiver) = BufDnsStreamHandle::new(src);
     let handle = ResponseHandle::new(src, stream, Protocol::Tcp);
     let run = catch(|| cx.rt.block_on(catalog.handle_request::<_, VTime>(&request, handle)));
-    let after = zone_dump(&handler, &cx.rt);
-    let rows_after = journal_rows(&handler, &cx.rt);
+    let after = dump(&cx.rt);
+    let rows_after = rows(&cx.rt);
     let changed = before != after || rows_before != rows_after;
 
     let req_sig = request.signature.as_ref().map(|s| (s.name.clone(), s.data.clone()));
@@ -882,7 +911,26 @@ fn exec_srv(t: &[&str], cx: &Ctx) -> Option<CaseOut> {
             if kind == "upd" && changed && !(au && valid) {
                 fails.push((format!("zone changed by an update that is not (allowed ∧ signed ∧ valid ∧ timely): allow_update={au} reference={verdict:?}"), class));
             }
-            if kind == "axfr" && data {
+            // zone-transfer content, whatever the query type that produced it: the answer section
+            // enumerates the zone (records of three or more owner names; no ordinary answer of
+            // this zone has more than one)
+            let owners: std::collections::BTreeSet<String> = rm.answers.iter().map(|r| r.name.to_ascii().to_lowercase()).collect();
+            let sqlite_store = store == "0" || store == "1";
+            if owners.len() >= 3 {
+                stats.push(format!("srv.transfer-content.qtype{}", u16::from(qtype)));
+                let admitted = match policy {
+                    AxfrPolicy::Deny => false,
+                    AxfrPolicy::AllowAll => true,
+                    AxfrPolicy::AllowSigned => sqlite_store && valid,
+                };
+                if !admitted {
+                    fails.push((
+                        format!("zone-transfer content ({} records of {} owner names) returned for a {qtype} query that the policy {pol} does not admit (store {store}, reference={verdict:?})", rm.answers.len(), owners.len()),
+                        class,
+                    ));
+                }
+            }
+            if kind == "axfr" && data && sqlite_store {
                 let allowed = match policy {
                     AxfrPolicy::Deny => false,
                     AxfrPolicy::AllowAll => true,
@@ -896,7 +944,7 @@ fn exec_srv(t: &[&str], cx: &Ctx) -> Option<CaseOut> {
             let canonical = rtsig.as_ref().is_some_and(|t| t.alg_plain && t.class == 255 && t.ttl == 0 && t.error == 0 && t.other.is_empty())
                 && buf.len() > 3
                 && buf[3] & 0x40 == 0;
-            if matches!(verdict, RefVerdict::Valid { strict: true }) && canonical && !effect {
+            if matches!(verdict, RefVerdict::Valid { strict: true }) && canonical && !effect && sqlite_store {
                 let expected = (kind == "upd" && au) || (kind == "axfr" && policy != AxfrPolicy::Deny);
                 if expected {
                     fails.push(("a correctly signed, timely request was refused".into(), ""));
@@ -1136,6 +1184,139 @@ fn exec_mseq(t: &[&str]) -> Option<Vec<CaseOut>> {
     Some(outs)
 }
 
+// ---- the real UdpClientStream with a signer, on a scripted socket -----------------------------
+
+struct USock(Arc<std::sync::Mutex<std::collections::VecDeque<Vec<u8>>>>, SocketAddr);
+
+impl DnsUdpSocket for USock {
+    type Time = MuxTime;
+    fn poll_recv_from(&self, _cx: &mut std::task::Context<'_>, buf: &mut [u8]) -> std::task::Poll<io::Result<(usize, SocketAddr)>> {
+        match self.0.lock().unwrap().pop_front() {
+            Some(b_) => {
+                let n = b_.len().min(buf.len());
+                buf[..n].copy_from_slice(&b_[..n]);
+                std::task::Poll::Ready(Ok((n, self.1)))
+            }
+            None => std::task::Poll::Ready(Err(io::Error::new(io::ErrorKind::ConnectionRefused, "end of script"))),
+        }
+    }
+    fn poll_send_to(&self, _cx: &mut std::task::Context<'_>, buf: &[u8], _target: SocketAddr) -> std::task::Poll<io::Result<usize>> {
+        std::task::Poll::Ready(Ok(buf.len()))
+    }
+}
+
+#[derive(Clone, Default)]
+struct NoSpawn;
+impl Spawn for NoSpawn {
+    fn spawn_bg(&mut self, _future: impl Future<Output = ()> + Send + 'static) {}
+}
+
+#[derive(Clone)]
+struct UProv(Arc<std::sync::Mutex<std::collections::VecDeque<Vec<u8>>>>, SocketAddr);
+
+impl RuntimeProvider for UProv {
+    type Handle = NoSpawn;
+    type Timer = MuxTime;
+    type Udp = USock;
+    type Tcp = AsyncIoTokioAsStd<tokio::net::TcpStream>;
+    fn create_handle(&self) -> Self::Handle {
+        NoSpawn
+    }
+    fn connect_tcp(&self, _server_addr: SocketAddr, _bind_addr: Option<SocketAddr>, _timeout: Option<Duration>) -> std::pin::Pin<Box<dyn Send + Future<Output = Result<Self::Tcp, io::Error>>>> {
+        Box::pin(async { Err(io::Error::new(io::ErrorKind::Unsupported, "no tcp in this script")) })
+    }
+    fn bind_udp(&self, _local_addr: SocketAddr, _server_addr: SocketAddr) -> std::pin::Pin<Box<dyn Send + Future<Output = Result<Self::Udp, io::Error>>>> {
+        let s = USock(self.0.clone(), self.1);
+        Box::pin(async move { Ok(s) })
+    }
+}
+
+/// `udp <signer> <reqmac> <request_time> <reqid> (<buf> <rdok> <parseok> <qok>)*` — one signed AXFR
+/// request (id `<reqid>`, signed at `<request_time>` by the stream itself: `finalize` is
+/// deterministic, so the replies can be prepared against its MAC) sent through the real
+/// `UdpClientStream::send_message` with `with_signer`; the scripted socket delivers the datagrams
+/// from the name server's address, then an I/O error.  Contract: `Ok` only for a datagram that the
+/// request's verifier authenticated, whatever its header bits say.
+fn exec_udp(t: &[&str]) -> Option<CaseOut> {
+    if t.len() < 5 || (t.len() - 5) % 4 != 0 {
+        return None;
+    }
+    let sg = SignerSpec::parse(t[1])?;
+    let signer = sg.signer()?;
+    let qt: u64 = t[3].parse().ok()?;
+    let id: u16 = t[4].parse().ok()?;
+    let dgrams: Vec<Vec<u8>> = t[5..].chunks(4).map(|c| unhex(c[0])).collect::<Option<_>>()?;
+    // what the stream will send
+    let req = axfr_msg(id);
+    let mut rq = req.clone();
+    rq.finalize(&signer, qt).ok()?;
+    let reqmac = rq.signature()?.data.mac.clone();
+    // per datagram: the parse summary and which one reaches the verifier
+    let mut toks = vec![];
+    let mut reaches: Option<usize> = None;
+    for (i, d) in dgrams.iter().enumerate() {
+        let ok = rdok(d);
+        let parsed = catch(|| DnsResponse::from_buffer(d.clone()).ok()).unwrap_or(None);
+        let pok = parsed.is_some();
+        let qok = parsed.as_ref().is_some_and(|p| p.queries.iter().all(|q| req.queries.contains(q)));
+        if reaches.is_none() && i < 3 && pok && qok && r16(d, 0) == Some(id as usize) && dgrams[..i].iter().all(|e| catch(|| DnsResponse::from_buffer(e.clone()).is_ok()).unwrap_or(false)) {
+            reaches = Some(i);
+        }
+        toks.push(format!("{} {} {} {}", hex(d), b(ok), b(pok), b(qok)));
+    }
+    let mok = reaches.is_some_and(|i| macok_for(&sg, &dgrams[i], Some(&reqmac), true));
+    let line = format!("udp {} {} {} {} {}", sg.tok(mok), hex(&reqmac), qt, id, toks.join(" ")).trim_end().to_string();
+    // run
+    let addr: SocketAddr = "192.0.2.53:53".parse().unwrap();
+    let inbox = Arc::new(std::sync::Mutex::new(dgrams.iter().cloned().collect::<std::collections::VecDeque<_>>()));
+    NOW.store(qt, Ordering::SeqCst);
+    let mut fails: Vec<(String, &'static str)> = vec![];
+    let mut stats = vec![format!("udp.dgrams.{}", dgrams.len())];
+    let run = catch(|| {
+        let mut stream = UdpClientStream::builder(addr, UProv(inbox.clone(), addr)).with_signer(Some(signer.clone())).with_timeout(None).build();
+        let mut rs = stream.send_message(DnsRequest::new(req.clone(), DnsRequestOptions::default()));
+        let waker = futures_util::task::noop_waker();
+        let mut pcx = std::task::Context::from_waker(&waker);
+        match rs.poll_next_unpin(&mut pcx) {
+            std::task::Poll::Ready(Some(r)) => Some(r.map(|d| d.as_buffer().to_vec()).map_err(|_| ())),
+            _ => None,
+        }
+    });
+    let mut nontrivial = false;
+    let out = match run {
+        Err(p) => panic_out(&p, "UdpClientStream::send_message", &mut fails),
+        Ok(None) => {
+            fails.push(("the UDP request neither completed nor failed".into(), ""));
+            "hang".into()
+        }
+        Ok(Some(Ok(bytes))) => {
+            stats.push("udp.ok".into());
+            nontrivial = true;
+            let (v, _) = ref_verify_ex(&bytes, std::slice::from_ref(&sg), qt, Some(&reqmac), true);
+            if !matches!(v, RefVerdict::Valid { .. }) {
+                let tc = bytes.len() > 2 && bytes[2] & 0x02 != 0;
+                fails.push((format!("a reply was handed to the caller of a signed UDP request as Ok although it does not verify ({v:?}; TC={tc})"), ""));
+            }
+            match ref_tsig(&bytes) {
+                Some(r) => format!("ok {} {}", hex(&r.mac), r.time),
+                None => "ok ? ?".into(),
+            }
+        }
+        Ok(Some(Err(()))) => {
+            stats.push("udp.err".into());
+            if let Some(i) = reaches {
+                let (v, rt_) = ref_verify_ex(&dgrams[i], std::slice::from_ref(&sg), qt, Some(&reqmac), true);
+                let canonical = rt_.as_ref().is_some_and(|t| t.alg_plain && t.class == 255 && t.ttl == 0 && t.other.is_empty());
+                if canonical && matches!(v, RefVerdict::Valid { strict: true }) {
+                    fails.push(("a genuine signed reply was rejected by the UDP client".into(), ""));
+                }
+            }
+            "err".into()
+        }
+    };
+    Some(CaseOut { line, out, fails, nontrivial, stats })
+}
+
 /// `bigxfr <extra records> <udp|tcp> <edns payload|0>` — implementation-vs-oracle only (`~`): a signed
 /// AXFR of a zone with many records; if the reply carries a MAC it must verify with the verifier
 /// the client kept, whatever the size limit did to the message.
@@ -1261,6 +1442,7 @@ fn exec(line: &str, rec: &mut Recorder, cx: &Ctx) {
         Some("srv") => exec_srv(&t, cx),
         Some("bigxfr") => exec_bigxfr(&t, cx),
         Some("ssm") => exec_ssm(&t),
+        Some("udp") => exec_udp(&t),
         Some("begin") => exec_vseq_begin(&t, cx),
         Some("vmsg") => exec_vmsg(&t, cx),
         Some("end") => exec_vseq_end(cx),
@@ -1947,6 +2129,120 @@ pub fn run(o: &Opts, rec: &mut Recorder) {
                 serial += 1;
                 g.run(format!("begin mseq {} {} {}", signer.tok(false), T0, ks.join(",")));
             }
+        }
+    }
+
+    // ---- (4e) transfer-type queries × store kinds × policies × authentication states -----------
+    {
+        let types: [(u16, bool); 10] = [(251, false), (251, true), (252, false), (253, false), (254, false), (255, false), (250, false), (249, false), (6, false), (1, false)];
+        for (qt_, soa_auth) in types {
+            let mut m = Message::new(g.rng.next() as u16, MessageType::Query, OpCode::Query);
+            m.add_query(Query::new(origin(), RecordType::from(qt_)));
+            if soa_auth {
+                // IXFR as RFC 1995 sends it: the client's current SOA in the authority section
+                let soa = SOA::new(Name::from_ascii("ns.example.com.").unwrap(), Name::from_ascii("admin.example.com.").unwrap(), 20250101, 7200, 3600, 360000, 60);
+                m.add_authority(Record::from_rdata(origin(), 3600, RData::SOA(soa)));
+            }
+            let variants: Vec<(&str, Vec<u8>)> = vec![
+                ("unsigned", m.to_vec().unwrap()),
+                ("unknown-key", sign_plain(&m, &spec("nobody-knows-this-key.", 256, 300, "ka"), T0)),
+                ("bad-mac", sign_plain(&m, &spec("tsig-key.", 256, 300, "kx"), T0)),
+                ("valid", sign_plain(&m, &a, T0)),
+                ("stale", sign_plain(&m, &a, T0 - 100_000)),
+            ];
+            for (tag, buf) in variants {
+                for store in ["0", "m", "f"] {
+                    for pol in ["signed", "all", "deny"] {
+                        g.rec.stat(&format!("gen.xfr.{tag}"));
+                        let l = cfg_line(true, pol, &std_keys, T0, &buf, false);
+                        let l = format!("{} {}", l.rsplit_once(' ').unwrap().0, store);
+                        g.run(l);
+                    }
+                }
+            }
+        }
+    }
+
+    // ---- (4f) the UDP client with a signer: reply kinds × header-bit variations -----------------
+    {
+        // (octet, mask, value): TC, AA, RD, RA, Z, AD, CD, rcode 3 / 5 / 9, TC + rcode
+        let hdr_vars: [(&str, usize, u8, u8); 12] = [
+            ("none", 2, 0, 0), ("tc", 2, 0x02, 0x02), ("aa", 2, 0x04, 0x04), ("rd", 2, 0x01, 0x01), ("ra", 3, 0x80, 0x80), ("z", 3, 0x40, 0x40),
+            ("ad", 3, 0x20, 0x20), ("cd", 3, 0x10, 0x10), ("rc3", 3, 0x0F, 3), ("rc5", 3, 0x0F, 5), ("rc9", 3, 0x0F, 9), ("tc+rc2", 23, 0, 0),
+        ];
+        let apply = |m: &mut Message, var: &str| match var {
+            "tc" => m.metadata.truncation = true,
+            "aa" => m.metadata.authoritative = true,
+            "rd" => m.metadata.recursion_desired = true,
+            "ra" => m.metadata.recursion_available = true,
+            "ad" => m.metadata.authentic_data = true,
+            "cd" => m.metadata.checking_disabled = true,
+            "rc3" => m.metadata.response_code = hickory_proto::op::ResponseCode::NXDomain,
+            "rc5" => m.metadata.response_code = hickory_proto::op::ResponseCode::Refused,
+            "rc9" => m.metadata.response_code = hickory_proto::op::ResponseCode::NotAuth,
+            "tc+rc2" => {
+                m.metadata.truncation = true;
+                m.metadata.response_code = hickory_proto::op::ResponseCode::ServFail;
+            }
+            _ => {}
+        };
+        let patch = |b_: &mut Vec<u8>, var: &(&str, usize, u8, u8)| {
+            if var.0 == "tc+rc2" {
+                b_[2] |= 0x02;
+                b_[3] = (b_[3] & 0xF0) | 2;
+            } else if var.2 != 0 {
+                b_[var.1] = (b_[var.1] & !var.2) | var.3;
+            }
+        };
+        for signer in [a.clone(), bq.clone()] {
+            let id = g.rng.next() as u16;
+            let mut rq = axfr_msg(id);
+            rq.finalize(&signer.signer().unwrap(), T0).unwrap();
+            let reqmac = rq.signature().unwrap().data.mac.clone();
+            let line = |ds: &[Vec<u8>]| {
+                let toks: Vec<String> = ds.iter().map(|d| format!("{} ? ? ?", hex(d))).collect();
+                format!("udp {} {} {} {} {}", signer.tok(false), hex(&reqmac), T0, id, toks.join(" ")).trim_end().to_string()
+            };
+            let build = |kind: &str, m: &Message| -> Vec<u8> {
+                match kind {
+                    "valid" => sign_chained(m, &signer, &signer.keyid, &reqmac, T0, true).unwrap().0,
+                    "unsigned" => m.to_vec().unwrap(),
+                    "badmac" => {
+                        let mut b_ = sign_chained(m, &signer, &signer.keyid, &reqmac, T0, true).unwrap().0;
+                        let r = ref_tsig(&b_).unwrap();
+                        let i = r.end - 6 - r.other.len() - 1;
+                        b_[i] ^= 0x01;
+                        b_
+                    }
+                    "wrongkey" => sign_chained(m, &signer, "kx", &reqmac, T0, true).unwrap().0,
+                    _ => sign_chained(m, &signer, &signer.keyid, &reqmac, T0 + signer.fudge as u64 + 50, true).unwrap().0,
+                }
+            };
+            let genuine = build("valid", &chain_msg(id, 0, 2));
+            for kind in ["valid", "unsigned", "badmac", "wrongkey", "stale"] {
+                for var in &hdr_vars {
+                    // the bits set by the sender (before signing) …
+                    let mut m = chain_msg(id, 1, 2);
+                    apply(&mut m, var.0);
+                    let before = build(kind, &m);
+                    g.rec.stat(&format!("gen.udp.{kind}.before"));
+                    g.run(line(&[before.clone()]));
+                    // … and changed in transit (after signing)
+                    let mut after = build(kind, &chain_msg(id, 1, 2));
+                    patch(&mut after, var);
+                    g.rec.stat(&format!("gen.udp.{kind}.after"));
+                    g.run(line(&[after.clone()]));
+                    // the forgery first, the genuine reply behind it; a foreign id first
+                    if var.0 == "tc" || var.0 == "tc+rc2" || var.0 == "none" {
+                        g.run(line(&[after.clone(), genuine.clone()]));
+                        let mut foreign = before.clone();
+                        patch16(&mut foreign, 0, id.wrapping_add(1));
+                        g.run(line(&[foreign, after.clone()]));
+                    }
+                }
+            }
+            g.run(line(&[]));
+            g.run(line(&[vec![0u8; 5], genuine.clone()]));
         }
     }
 
